@@ -67,7 +67,8 @@ Verdict(o) ==
 (* ---- wiring of an accepted request ---- *)
 \* k: the parent's descriptor table as far as the contract cares: std[s] = TRUE iff the parent's descriptor s-1 is open
 \* (on its own terminal-like object named "t<s-1>"); user handles / files are descriptors >= 3 on objects named by Name(fd).
-Name(fd) == "o" \o ToString(fd)
+\* (a user handle that is itself descriptor 0, 1 or 2 refers to the parent's own standard stream object)
+Name(fd) == IF fd <= 2 THEN "t" \o ToString(fd) ELSE "o" \o ToString(fd)
 
 Acc(s) == IF s = 1 THEN "r" ELSE "w"
 
@@ -79,8 +80,8 @@ Tok(eff, k, s) ==
   CASE e.t = T_PIPE -> "p" \o Acc(s) \o "#" \o ToString(PipeOrd(eff, s)) \o (IF s = 1 /\ k.hasInput THEN "!" ELSE "")
     [] e.t = T_PARENT -> IF k.std[s] THEN "u:t" \o ToString(s - 1) ELSE "n" \o Acc(s)
     [] e.t = T_DISCARD -> "n" \o Acc(s)
-    [] e.t = T_HANDLE -> "u:" \o Name(e.h)
-    [] e.t = T_FILE -> "u:" \o Name(e.f)
+    [] e.t = T_HANDLE -> IF e.h <= 2 /\ ~k.std[e.h + 1] THEN "?" ELSE "u:" \o Name(e.h)
+    [] e.t = T_FILE -> IF e.f <= 2 /\ ~k.std[e.f + 1] THEN "?" ELSE "u:" \o Name(e.f)
     [] e.t = T_PATH -> "f" \o Acc(s) \o ":" \o e.p
     [] OTHER -> "?"
 
